@@ -265,7 +265,8 @@ func (l *Lexer) readString(delimiter byte) string {
 		}
 		// Handle escape sequences
 		if l.CurrentChar == '\\' {
-			l.ReadChar() // Move to the character after backslash
+			escStart := l.position // the escape sequence is kept verbatim when it cannot be decoded safely
+			l.ReadChar()           // Move to the character after backslash
 			if l.CurrentChar == 'x' {
 				// Handle hexadecimal escape sequence \xHH
 				hex1 := l.PeekChar()
@@ -276,6 +277,10 @@ func (l *Lexer) readString(delimiter byte) string {
 						l.ReadChar() // consume second hex digit
 						// Convert hex digits to byte value
 						value := hexDigitValue(hex1)*16 + hexDigitValue(hex2)
+						if value >= 0x80 || !decodableEscape(value) {
+							result.WriteString(l.input[escStart : l.position+1])
+							continue
+						}
 						result.WriteByte(byte(value))
 						continue
 					}
@@ -342,6 +347,11 @@ func (l *Lexer) readString(delimiter byte) string {
 						continue
 					}
 
+					if !decodableEscape(value) {
+						result.WriteString(l.input[escStart : l.position+1])
+						continue
+					}
+
 					// Convert to UTF-8 and add to result
 					utf8Bytes := encodeUTF8(value)
 					for _, b := range utf8Bytes {
@@ -364,6 +374,10 @@ func (l *Lexer) readString(delimiter byte) string {
 									l.ReadChar() // consume fourth hex digit
 									// Convert 4 hex digits to Unicode value
 									value := hexDigitValue(hex1)*4096 + hexDigitValue(hex2)*256 + hexDigitValue(hex3)*16 + hexDigitValue(hex4)
+									if !decodableEscape(value) {
+										result.WriteString(l.input[escStart : l.position+1])
+										continue
+									}
 									// Convert to UTF-8 and write the bytes
 									utf8Bytes := encodeUTF8(value)
 									for _, b := range utf8Bytes {
